@@ -107,7 +107,7 @@ Definition finish (rs : str -> str -> ares) (r : res preout) : fin :=
               | None => FErr
               | Some E =>
                   match e_kind E with
-                  | ERaw _ => mk (Some (e_name E))
+                  | ERaw _ _ => mk (Some (e_name E))
                   | EAlias t =>
                       match rs (e_name E) t with
                       | ADone (Some x) =>
